@@ -60,6 +60,11 @@ def case(item) -> tuple:
         return ('finding', f'not-a-pair@{text}', f'refactor_reference({text}, {alias}) returned {res!r}', rep)
     f1, f2 = res
     rep['output'] = [str(f1), str(f2)]
+    if not as_pred and len(text) % 4 == 0:
+        h = rw.history_dependence(lambda x: refactor_reference(x, alias), HplPredicateExpression(gen.build(spec)).condition,
+                                  holds=lambda d, o: check_pair(d, o[0], o[1], alias, str(d), {})[0] != 'finding')
+        if h:
+            return ('finding', f'history@{alias}@{text}', f'refactor_reference depends on earlier calls: {h}', rep)
     if as_pred:
         if not (f1.is_predicate and f2.is_predicate):
             return ('finding', f'not-predicates@{text}', f'predicate in, but got ({f1!r}, {f2!r})', rep)
